@@ -29,6 +29,7 @@ def setup() -> dict[str, Any]:
     _L["a"] = Symbol("a", positive=True)
     _L["b"] = Symbol("beta_1", display_latex="\\beta_{1}", positive=True)
     _L["c"] = Symbol("x_c", display_latex="x_\\text{c}", positive=True)
+    _L["3"] = sp.Integer(3)
     for n, v in (("2", 2), ("-1", -1), ("-3", -3), ("1/2", sp.Rational(1, 2)), ("-2/3",
         sp.Rational(-2, 3)), ("1.5", sp.Float(1.5)), ("pi", sp.pi)):
         _L[n] = sp.sympify(v)
@@ -38,6 +39,13 @@ def setup() -> dict[str, Any]:
     _L["1e-10"] = sp.Float("1e-10")  # printed in exponent notation
     _L["6.5e-20"] = sp.Float("6.5e-20")
     _L["a+c"] = _L["a"] + _L["c"]
+    _L["n"] = Symbol("n", integer=True)  # an integer of unknown parity and sign
+    _L["w"] = Symbol("w")  # no assumptions: complex
+    _L["v"] = Symbol("v")
+    _L["n+1"] = _L["n"] + 1
+    _L["-n"] = -_L["n"]
+    _L["-a-b"] = -_L["a"] - _L["b"]  # sums whose terms are all negative
+    _L["-a-2"] = -_L["a"] - 2
     _L["-b"] = -_L["b"]
     _L["-b-c"] = -_L["b"] - _L["c"]  # symbolic exponents that print with a leading minus
     _L["2c-3b"] = 2 * _L["c"] - 3 * _L["b"]
@@ -46,7 +54,7 @@ def setup() -> dict[str, Any]:
 
 def symbols() -> list[Any]:
     L = setup()
-    return [L["a"], L["b"], L["c"]]
+    return [L["a"], L["b"], L["c"], L["n"], L["w"], L["v"]]
 
 
 def build(d: Any) -> Any:
@@ -86,9 +94,25 @@ def siblings() -> Iterator[Any]:
             yield ("Mul", (f, a1), ("Pow", (f, a2), "-1"))
 
 
+def signed_powers() -> Iterator[Any]:
+    """powers of sums whose sign a printer may want to pull out, inside products and sums, with
+    every kind of exponent (numbers, symbols, integer symbols of unknown parity)"""
+    for base in ("-a-b", "-a-2", ("Add", "a", ("Mul", "-1", "b"))):
+        for e in EXPS + ["n", "n+1", "-n", "3", "-3"]:
+            pw = ("Pow", base, e)
+            yield pw
+            for m in ("c", ("Mul", "-1", "c"), "2", "-3", ("Pow", "c", "-1")):
+                yield ("Mul", m, pw)
+            yield ("Add", "c", pw)
+            yield ("Add", "c", ("Mul", "-1", pw))
+            yield ("Mul", "c", pw, ("Pow", "-a-2", "n"))
+
+
 def space(thorough: bool) -> Iterator[Any]:
     yield from LEAVES
     yield from siblings()
+    yield from signed_powers()
+    yield from complex_family()
     t1 = list(explore.level1(LEAVES, COMM, UNARY, EXPS, MEDIUM))
     yield from t1
     yield from explore.level_up(t1, LEAVES, COMM, UNARY, EXPS, MEDIUM if thorough else REDUCED)
@@ -194,3 +218,37 @@ def split_top(text: str, sep: str, opening: str = "([{", closing: str = ")]}") -
         i += 1
     out.append(cur)
     return [x.strip() for x in out]
+
+
+def point_value(text: str) -> Any:
+    """exact sympy number of a point coordinate given as text ('3/7', '3/10+4*I')"""
+    return sp.nsimplify(sp.sympify(text), rational=True)
+
+
+def point_mp(text: str) -> Any:
+    import mpmath
+    v = point_value(text)
+    re_, im_ = v.as_real_imag()
+    to = lambda r: mpmath.mpf(sp.Rational(r).p) / sp.Rational(r).q
+    return mpmath.mpc(to(re_), to(im_)) if im_ != 0 else to(re_)
+
+
+def complex_family() -> Iterator[Any]:
+    """trees over symbols without assumptions: sympy keeps exp(w)**v, sqrt(w**2), log(exp(w)) ...
+    apart from their 'simplified' forms, which differ off the real axis; evaluated at complex
+    points"""
+    ws = ["w", "v"]
+    inner = ["w", ("Mul", "2", "w"), ("Mul", "w", "v"), ("Pow", "w", "2"), ("Add", "w", "v")]
+    for f in ("exp", "sqrt", "log"):
+        for x in inner:
+            fx = (f, x)
+            yield fx
+            for e in ("v", "1/2", "-1/2", "2", "1/3", ("Mul", "-1", "v")):
+                yield ("Pow", fx, e)
+                yield ("Mul", "v", ("Pow", fx, e))
+            for g in ("exp", "sqrt", "log"):
+                yield (g, fx)
+    for x in inner:
+        for e in ("1/2", "1/3", "v", "-1/2"):
+            yield ("Pow", ("Pow", x, "2"), e)
+            yield ("Pow", ("Mul", x, "v"), e)
